@@ -7,8 +7,11 @@ PROPS["C15"] = {
     "quick_budget_s": 60,
     "thorough_budget_s": 600,
     "floors": {"any": {"pair:compatible": 1000, "pair:incompatible": 1000, "get:alternate": 1000,
-                       "get:exact": 1000, "get:none": 1000, "maps": 100000}},
-    "rule": "Exhaustive: every ordered pair of a 242-name universe (2 base names x major,minor,patch in 0..3 x "
+                       "get:exact": 1000, "get:none": 1000, "maps": 100000,
+                       "aggregator-pair:merged": 20, "aggregator-pair:separate": 200}},
+    "rule": "Aggregator lane: every ordered pair of the 22-name map universe (it contains 1.x / 10.x, 0.1 / 0.10 and names that are prefixes of one another) is aggregated "
+            "as two empty instance imports through TypeAggregator; they must end as one import (named for the higher version) exactly when the track relation says compatible. "
+            "Exhaustive: every ordered pair of a 242-name universe (2 base names x major,minor,patch in 0..3 x "
             "pre-release none|rc x build none|meta + unversioned + 24 malformed/odd spellings) is given to "
             "are_semver_compatible and to a model built on semver::Version::parse only; every ordered selection of "
             "<=4 names from a 22-name sub-universe is inserted into a NameMap and every sub-universe name is looked up. "
@@ -208,7 +211,7 @@ PROPS["C04"] = {
                        "instantiations-compared": 15000, "exports-compared": 10000,
                        "rule:inferred:1-package-path-of-the-instance": 300, "rule:inferred:2-import-or-export-name": 50,
                        "rule:inferred:3-unique-path-ending-with-local-name": 80, "rule:inferred:4-local-name": 100,
-                       "rule:named:identifier-matches-unique-path": 1000, "rule:named:identifier-itself": 800, "rule:named:string-is-exact": 2000,
+                       "rule:named:identifier-matches-unique-path": 1000, "rule:named:identifier-itself": 800, "rule:named:string-is-exact": 2000, "mutation:identifier-argument-name-as-string": 30,
                        "rule:spread:fills-unspecified-arguments-in-order": 2000, "rule:fill:implicit-import": 10000,
                        "rule:access:unique-path-ending-with-id": 2000, "rule:access:identifier-itself": 4000, "rule:named-access:exact-name": 10000,
                        "rule:export:as-name": 5000, "rule:export:import-or-accessed-name": 3000, "rule:export:package-path-of-the-instance": 1500,
@@ -245,7 +248,7 @@ PROPS["C05"] = {
     "shards": 16,
     "quick_budget_s": 60,
     "thorough_budget_s": 900,
-    "floors": {"any": {"packages-encoded-by-both": 5000, "interfaces-compared": 12000, "worlds-compared": 10000,
+    "floors": {"any": {"directed:import-and-export-orders": 64, "packages-encoded-by-both": 5000, "interfaces-compared": 12000, "worlds-compared": 10000,
                        "world-items-compared": 8000, "worlds-one-way-checked": 1500, "feature:use-foreign": 1000,
                        "feature:use-rename": 1000, "feature:include-with": 800, "feature:resource": 1500}},
     "rule": "Each case draws 0-1 dependency packages (optionally versioned) and one package text inside the shared WIT/WAC subset: "
